@@ -485,7 +485,7 @@ def r8_flag_machine(ctx, fam):
 def run(ctx):
     ctx.rule('C19.R9', 'TimeoutError / DisconnectedError raised by the '
              'simple clients are the package\'s classes, not builtins of the '
-             'same name', floor=4)
+             'same name (qualified uses need no resolution)', floor=0)
     from .common import exception_identity
     exception_identity(ctx, ('simple_client', 'async_simple_client'),
                        'C19.R9')
